@@ -17,7 +17,16 @@ use std::time::Duration;
 pub fn read_script(path: &std::path::Path) -> String {
     let r = util::guarded(|| -> Result<String, String> {
         let c = jbk::reader::Container::new(path).map_err(|e| format!("err:{}", util::err_kind(&e)))?;
-        let lines = container::dump_container(&c).map_err(|e| if e.starts_with("io:") { "err:io".to_string() } else { format!("err:{}", e) })?;
+        let lines = match container::dump_container(&c) {
+            Ok(l) => l,
+            // the generic reader reports an error: a schema-specific reader (typed property builders)
+            // must not get *values* out of the same container instead — if it does, its values are
+            // what this script returns and they are judged like any other returned value
+            Err(e) => match container::dump_container_typed(&c) {
+                Ok(l) => l,
+                Err(_) => return Err(if e.starts_with("io:") { "err:io".to_string() } else { format!("err:{}", e) }),
+            },
+        };
         let chk = match c.check() {
             Ok(true) => "true".to_string(),
             Ok(false) => "false".to_string(),
